@@ -39,11 +39,16 @@ theorem push_grow (s : RSt) (t d : Nat) : RGrow s (push s t d) ∧ t ∈ (push s
     · exact ⟨d, by simp⟩
     · exact absurd hx hn
 
+/-- `t`, examined as a reverse dependency of the popped target `x`, has been reported (as itself or as its rule) whenever
+the step from `x` to `t` costs a level: always with `--hidden`, otherwise when the two are not the same target/rule -/
+def Rep (G : Graph) (hidden : Bool) (x t : Nat) (ret : List Nat) : Prop :=
+  (hidden = true ∨ isSameTarget G x t = false) → ∀ r, report G hidden t = some r → r ∈ ret
+
 /-- one pass over the reverse dependencies of the popped target, without a limit -/
 theorem revStep_all (cfg : Cfg) (G : Graph) (hidden : Bool) (next d : Nat) : ∀ (ts : List Nat) (s : RSt),
     RGrow s (revStep cfg G none hidden next d ts s) ∧
     ∀ t ∈ ts, t ∈ (revStep cfg G none hidden next d ts s).done ∧
-      (hidden = true → t ∈ (revStep cfg G none hidden next d ts s).ret) := by
+      Rep G hidden next t (revStep cfg G none hidden next d ts s).ret := by
   intro ts
   induction ts with
   | nil => intro s; simp only [revStep]; exact ⟨RGrow.refl s, by simp⟩
@@ -56,7 +61,7 @@ theorem revStep_all (cfg : Cfg) (G : Graph) (hidden : Bool) (next d : Nat) : ∀
         | some x => { s with ret := x :: s.ret }
         | none => s
       else s) t (nextDepth G hidden next d t)) = s1
-    have hg : RGrow s s1 ∧ t ∈ s1.done ∧ (hidden = true → t ∈ s1.ret) := by
+    have hg : RGrow s s1 ∧ t ∈ s1.done ∧ Rep G hidden next t s1.ret := by
       subst hs1
       have hpg := push_grow (if nextDepth G hidden next d t > 0 then
         match report G hidden t with
@@ -74,11 +79,13 @@ theorem revStep_all (cfg : Cfg) (G : Graph) (hidden : Bool) (next d : Nat) : ∀
           · exact RGrow.refl s
         · exact RGrow.refl s
       refine ⟨hmid.trans hpg.1, hpg.2, ?_⟩
-      intro hh
+      intro hc r hr
       apply hpg.1.2.2.1
-      subst hh
-      have hd : nextDepth G true next d t > 0 := by simp [nextDepth]
-      have hr : report G true t = some t := by simp [report]
+      have hd : nextDepth G hidden next d t > 0 := by
+        unfold nextDepth
+        have : (hidden || !isSameTarget G next t) = true := by
+          rcases hc with hc | hc <;> simp [hc]
+        simp [this]
       simp only [hd, ite_true, hr]
       exact List.mem_cons_self ..
     obtain ⟨hrest, hall⟩ := ih s1
@@ -86,18 +93,18 @@ theorem revStep_all (cfg : Cfg) (G : Graph) (hidden : Bool) (next d : Nat) : ∀
     intro t' ht'
     simp only [List.mem_cons] at ht'
     rcases ht' with rfl | ht'
-    · exact ⟨hrest.2.1 _ hg.2.1, fun hh => hrest.2.2.1 _ (hg.2.2 hh)⟩
+    · exact ⟨hrest.2.1 _ hg.2.1, fun hc r hr => hrest.2.2.1 _ (hg.2.2 hc r hr)⟩
     · exact hall t' ht'
 
 /-- every done target is still queued, or all its reverse dependencies are done (and reported when `hidden`) -/
 def PInv (G : Graph) (hidden : Bool) (s : RSt) : Prop :=
-  ∀ x ∈ s.done, (∃ d, (x, d) ∈ s.queue) ∨ (∀ t ∈ rev G x, t ∈ s.done ∧ (hidden = true → t ∈ s.ret))
+  ∀ x ∈ s.done, (∃ d, (x, d) ∈ s.queue) ∨ (∀ t ∈ rev G x, t ∈ s.done ∧ Rep G hidden x t s.ret)
 
 theorem revLoop_closure (cfg : Cfg) (G : Graph) (hidden : Bool) : ∀ (fuel : Nat) (s : RSt), PInv G hidden s →
     (revLoop cfg G none hidden fuel s).oof = false →
     (∀ x ∈ s.done, x ∈ (revLoop cfg G none hidden fuel s).done) ∧
     ∀ x ∈ (revLoop cfg G none hidden fuel s).done, ∀ t ∈ rev G x,
-      t ∈ (revLoop cfg G none hidden fuel s).done ∧ (hidden = true → t ∈ (revLoop cfg G none hidden fuel s).ret) := by
+      t ∈ (revLoop cfg G none hidden fuel s).done ∧ Rep G hidden x t (revLoop cfg G none hidden fuel s).ret := by
   intro fuel
   induction fuel with
   | zero =>
@@ -133,7 +140,7 @@ theorem revLoop_closure (cfg : Cfg) (G : Graph) (hidden : Bool) : ∀ (fuel : Na
             rcases hd' with ⟨rfl, _⟩ | hd'
             · exact Or.inr hall
             · exact Or.inl ⟨d', hgrow.1 _ hd'⟩
-          · exact Or.inr fun t ht => ⟨hgrow.2.1 _ (hp t ht).1, fun hh => hgrow.2.2.1 _ ((hp t ht).2 hh)⟩
+          · exact Or.inr fun t ht => ⟨hgrow.2.1 _ (hp t ht).1, fun hc r hr => hgrow.2.2.1 _ ((hp t ht).2 hc r hr)⟩
         · exact Or.inl (hgrow.2.2.2 x hx hxs)
       obtain ⟨hm, hc⟩ := ih _ hinv ho
       exact ⟨fun x hx => hm x (hgrow.2.1 x hx), hc⟩
@@ -215,8 +222,33 @@ theorem findRevdeps_complete_unlimited (cfg : Cfg) (G : Graph) (hidden : Bool) (
   unfold findRevdeps at ho ⊢
   obtain ⟨hp, hroots⟩ := revInit_pinv G hidden roots
   obtain ⟨hm, hc⟩ := revLoop_closure cfg G hidden _ _ hp ho
+  have key : ∀ {x u : Nat}, x ∈ (revLoop cfg G none hidden (G.nodes.length + 1) (revInit G hidden roots)).done →
+      u ∈ G.nodes → Edge G u x →
+      u ∈ (revLoop cfg G none hidden (G.nodes.length + 1) (revInit G hidden roots)).done ∧
+      (hidden = true → u ∈ (revLoop cfg G none hidden (G.nodes.length + 1) (revInit G hidden roots)).ret) := by
+    intro x u hx hun he
+    obtain ⟨h1, h2⟩ := hc _ hx _ (mem_rev_of hun he)
+    exact ⟨h1, fun hh => h2 (Or.inl hh) u (by simp [report, hh])⟩
   induction hu with
-  | direct hx hun he => exact hc _ (hm _ (hroots _ hx)) _ (mem_rev_of hun he)
-  | step _ hun he ih => exact hc _ ih.1 _ (mem_rev_of hun he)
+  | direct hx hun he => exact key (hm _ (hroots _ hx)) hun he
+  | step _ hun he ih => exact key ih.1 hun he
+
+/-- Without a level limit and WITHOUT `--hidden` (the default of `plz query revdeps`): whenever a target `u` depends
+directly on `x` — a queried target, one of its pushed hidden sub-targets, or anything that transitively depends on
+those — and `u` is not the same target/rule as `x`, then `u` is reported: as itself, or as its rule when it is hidden. -/
+theorem findRevdeps_reports_crossing (cfg : Cfg) (G : Graph) (hidden : Bool) (roots : List Nat)
+    (hr : ∀ r ∈ roots, r ∈ G.nodes) (x u r : Nat) (hx : x ∈ roots ∨ DependsOn G roots x) (hun : u ∈ G.nodes)
+    (he : Edge G u x) (hcross : hidden = true ∨ isSameTarget G x u = false) (hrep : report G hidden u = some r) :
+    r ∈ (findRevdeps cfg G none hidden roots).ret := by
+  have ho := findRevdeps_fuel cfg G none hidden roots hr
+  have hxd := hx.elim (fun h => ?_) (fun h => (findRevdeps_complete_unlimited cfg G hidden roots hr x h).1)
+  · unfold findRevdeps at ho hxd ⊢
+    obtain ⟨hp, _⟩ := revInit_pinv G hidden roots
+    obtain ⟨_, hc⟩ := revLoop_closure cfg G hidden _ _ hp ho
+    exact (hc _ hxd _ (mem_rev_of hun he)).2 hcross r hrep
+  · unfold findRevdeps at ho ⊢
+    obtain ⟨hp, hroots⟩ := revInit_pinv G hidden roots
+    obtain ⟨hm, _⟩ := revLoop_closure cfg G hidden _ _ hp ho
+    exact hm _ (hroots _ h)
 
 end PlzVerif.Query
